@@ -225,7 +225,12 @@ Definition glob_type (ty : option gtype) (isdir : bool) : option gtype :=
 
 Definition mk_pglob (p : path) (ty : option gtype) : option pglob :=
   match glob_type ty (p_dir p), split_first_glob (p_comps p) with
-  | Some t, Some (base, g) => Some (mkpglob (p_root p) base g t)
+  | Some t, Some (base, g) =>
+      (* an absolute pattern whose first glob component sits directly under the root: the base is rebuilt as
+         Path('', Root.absolute), which raises ValueError *)
+      if (p_root p =? 3) && match base with [] :: [] => true | _ => false end
+      then None
+      else Some (mkpglob (p_root p) base g t)
   | _, _ => None
   end.
 
